@@ -2,8 +2,8 @@ import Verif.Model.FailClosed
 /-!
   Line-protocol driver for C17 (fail-closed issuance).
 
-    run op=<op> e=<n> a=<n> chk=<i|-> faults=<pos:kind,…|-> sub=…
-        → <ok|err> got=<cert|ack|none> tok=Δ stored=Δ data=Δ rev=Δ reuse=<ok|err|na> trace=<kind:outcome,…|->
+    run op=<op> e=<n> a=<n> db=<1|0> chk=<i|-> faults=<pos:kind,…|-> sub=…
+        → <ok|err> got=<cert|ack|none> tok=Δ stored=Δ data=Δ rev=Δ reuse=<ok|err|na> fc=ok trace=<kind:outcome,…|->
       (ACME: … acme=Δ valid=<0|1> instead of rev / reuse)
     src fn=<go function>
         → the order of the external calls / decisions the model assumes inside that function,
@@ -54,7 +54,8 @@ def evalRun (kv : List (String × String)) : Option String := do
   let chk : Option Nat ← if chkS = "-" then some none else chkS.toNat?.map some
   let fs ← faults? (← lookup kv "faults")
   let g : Nat → Bool := fun i => some i != chk
-  let e : Env := { f := faultFn fs, g := g }
+  let db := (lookup kv "db").getD "1" != "0"
+  let e : Env := { f := faultFn fs, g := g, db := db }
   let c : Cfg := ⟨ne, na⟩
   let d0 : Durable := {}
   let r := runOp e op c d0
@@ -65,11 +66,14 @@ def evalRun (kv : List (String × String)) : Option String := do
   -- the identical request again, no faults, on the state the first attempt left
   let reuse :=
     if op.usesToken then
-      (if client op (runOp { f := fun _ => .ok, g := g } op c d) = .error then "err" else "ok")
+      (if client op (runOp { f := fun _ => .ok, g := g, db := db } op c d) = .error then "err" else "ok")
     else "na"
-  let head := s!"{clS} got={got} tok={b d.tokenSpent} stored={d.certs} data={d.datas}"
+  -- without a database the token set lives in memory: no table to observe
+  let head := s!"{clS} got={got} tok={b (d.tokenSpent && db)} stored={d.certs} data={d.datas}"
   let tail := if op = .acmeFinalize then s!" acme={d.acmeCerts} valid={b d.orderValid}" else s!" rev={b d.revoked} reuse={reuse}"
-  pure (head ++ tail ++ s!" trace={trace r.1.log}")
+  -- `fc`: the harness evaluates the property on the implementation's own trace; the model
+  -- satisfies it by `fail_closed`, `stored_before_returned`, `token_spent`
+  pure (head ++ tail ++ s!" fc=ok trace={trace r.1.log}")
 
 /-- collapse runs of webhook steps (the source has one call for all webhooks of a kind) and
     runs of in-process checks (the extractor reports adjacent checks once) -/
